@@ -158,7 +158,19 @@ def _start_rule(chk, f, start, basis_stmt_pred, zero_must_raise):
     par = A.enclosing_map(fn)
     norms = [(st, v) for nm in b for st, v, k in b[nm] if k == "assign" and isinstance(v, ast.Call) and A.callee_attr(v) == "norm"
              and isinstance(v.func, ast.Attribute) and A.text(v.func.value) == start]
-    chk.require(norms, f"{f.short}: norm of the start vector `{start}` not found")
+    if not norms:
+        # no local holds the norm: the division may still be by `start.norm()` itself, but then nothing tests it for zero
+        inline = [n for n in ast.walk(fn) if isinstance(n, ast.BinOp) and isinstance(n.op, ast.Div) and A.text(n.left) == start
+                  and isinstance(n.right, ast.Call) and A.callee_attr(n.right) == "norm" and A.text(n.right.func.value) == start]
+        if inline:
+            chk.ok("X2", (f, inline[0]), f"{f.short}: `{A.short(inline[0], 40)}`")
+            chk.bad("X2", (f, inline[0]), f"{f.short}: zero start vector handled before the division",
+                    f"{f.short}: the start vector `{start}` is divided by `{start}.norm()` without a test of that norm: a zero start vector "
+                    f"(for lin_solver: an initial guess that already solves the system) reaches the division")
+        else:
+            chk.bad("X2", f, f"{f.short}: `{start}` / its norm", f"{f.short}: the start vector `{start}` is not divided by its own norm: amplitudes of "
+                    f"the projected problem refer to a unit first basis vector")
+        return None
     nst, _ = norms[0]
     nv = A.text(nst.targets[0])
     divs = [n for n in ast.walk(fn) if isinstance(n, ast.BinOp) and isinstance(n.op, ast.Div) and A.text(n.left) == start and A.text(n.right) == nv]
@@ -192,6 +204,21 @@ def run_X2(chk):
     if not q0:
         raise AnalysisError("lin_solver: start residual not found")
     _start_rule(chk, ls, q0[0].targets[0].id, None, True)
+    # the projected least-squares problem min |T y - beta e1| has beta = |b - f(v0)|, the norm of the vector the basis starts from
+    res = q0[0].targets[0].id
+    inl = A.Inliner(ls.node)
+    rhs = [n for n in ast.walk(ls.node) if isinstance(n, ast.BinOp) and isinstance(n.op, ast.Add) and isinstance(n.left, ast.List) and len(n.left.elts) == 1
+           and isinstance(n.right, ast.BinOp) and isinstance(n.right.op, ast.Mult) and isinstance(n.right.left, ast.List)
+           and len(n.right.left.elts) == 1 and A.neg_const(n.right.left.elts[0]) == 0]
+    if rhs:
+        beta = inl.expand(rhs[0].left.elts[0])
+        ok = isinstance(beta, ast.Call) and A.callee_attr(beta) == "norm" and A.text(inl.expand(beta.func.value)) in (res, A.text(inl.expand(q0[0].value)))
+        chk.verdict("X2", (ls, rhs[0]), f"lin_solver: right-hand side of the projected problem is |{res}| e1 (`{A.short(rhs[0], 40)}`)", True if ok else False,
+                    f"lin_solver: the right-hand side of the projected least-squares problem is `{A.short(beta, 40)}` e1, but the Krylov basis starts from "
+                    f"`{res}` = b - f(v0) divided by its own norm, so the coefficient must be |{res}|: with a non-zero initial guess the correction is "
+                    f"scaled by |b|/|b - f(v0)| (invisible for v0 = 0, where the two coincide)")
+    else:
+        chk.note("lin_solver: right-hand side `[beta] + [0] * m` of the projected problem not recognised")
     ex = prog.func(KRY, "expmv")
     vpar = ex.params[1]
     _start_rule(chk, ex, vpar, None, False)
@@ -342,8 +369,61 @@ def run(chk):
                     f"exact; expmv degenerates to a one-dimensional space and its step-size controller diverges)")
 
     run_X7(chk)
+    run_X9(chk)
     from . import e10
     e10.run_U(chk, ("yastn.krylov", "yastn.tensor._krylov"), floor1=5, floor2=1)
+
+
+def run_X9(chk):
+    """X9: expmv advances the time by accepted steps `t_now += tau` until t_now reaches t_out.  The result is exp(t F) v only if the
+    steps add up to exactly |t|: every value the step `tau` can take inside the loop is bounded by the remaining time
+    `t_out - t_now` (it is that difference, or a min(..) containing it), and the value it has on entry, `t_out`, is the remaining
+    time because t_now starts at 0."""
+    prog = chk.prog
+    chk.rule("X9", "expmv: every step is bounded by the remaining time, so accepted steps add up to exactly |t|", floor=2)
+    f = prog.func(KRY, "expmv")
+    fn = f.node
+    b = A.local_bindings(fn)
+    par = A.enclosing_map(fn)
+    loops = [n for n in ast.walk(fn) if isinstance(n, ast.While) and isinstance(n.test, ast.Compare) and len(n.test.ops) == 1
+             and isinstance(n.test.ops[0], ast.Lt) and isinstance(n.test.left, ast.Name) and isinstance(n.test.comparators[0], ast.Name)]
+    chk.require(loops, "expmv: propagation loop `while t_now < t_out` not found")
+    loop = loops[0]
+    now, out = loop.test.left.id, loop.test.comparators[0].id
+    adv = [n for n in ast.walk(loop) if isinstance(n, ast.AugAssign) and isinstance(n.op, ast.Add) and isinstance(n.target, ast.Name) and n.target.id == now
+           and isinstance(n.value, ast.Name)]
+    chk.require(adv, f"expmv: `{now} += <step>` not found")
+    step = adv[0].value.id
+    rem = f"{out}-{now}"
+
+    def bounded(e, depth=0):
+        if depth > 5:
+            return False
+        if _sub_text(e) == rem:
+            return True
+        if isinstance(e, ast.Call):
+            nm = (A.call_name(e) or "").split(".")[-1]
+            args = list(e.args)
+            if len(args) == 1 and isinstance(args[0], (ast.List, ast.Tuple)):
+                args = list(args[0].elts)
+            if nm == "min":
+                return any(bounded(a_, depth + 1) for a_ in args)
+            if nm == "max":
+                return bool(args) and all(bounded(a_, depth + 1) for a_ in args)
+        if isinstance(e, ast.IfExp):
+            return bounded(e.body, depth + 1) and bounded(e.orelse, depth + 1)
+        return False
+    inside = [(st, v) for st, v, k in b.get(step, []) if v is not None and any(st is x for x in ast.walk(loop))]
+    before = [(st, v) for st, v, k in b.get(step, []) if v is not None and not any(st is x for x in ast.walk(loop))]
+    chk.require(inside, f"expmv: no definition of `{step}` inside the loop")
+    for st, v in inside:
+        chk.verdict("X9", (f, st), f"expmv: `{A.short(st, 60)}` <= {out} - {now}", True if bounded(v) else False,
+                    f"expmv(): `{A.short(st, 60)}` can exceed the remaining time `{out} - {now}`: when that step is accepted the evolution runs past |t| "
+                    f"(the result is exp((t_now + {step}) F) v, not exp(t F) v) -- e.g. a happy breakdown after sub-steps were already accepted")
+    now0 = [v for st, v, k in b.get(now, []) if v is not None and not any(st is x for x in ast.walk(loop))]
+    ok0 = bool(before) and all(A.text(v) == out or _sub_text(v) == rem for st, v in before) and bool(now0) and all(A.neg_const(v) == 0 for v in now0)
+    chk.verdict("X9", (f, before[0][0] if before else fn), f"expmv: on entry {step} = {out} and {now} = 0", True if ok0 else False,
+                f"expmv(): the first step is not the whole interval with {now} = 0")
 
 
 def run_X7(chk):
